@@ -79,7 +79,9 @@ proof('C16',
 proof('C18',
       'key() returns exactly the term the wrapper stores under; lookup() returns the resident value or raises '
       'KeyError; neither evaluates the function nor changes memory, archive, queue, counters or statistics; '
-      '__wrapped__ is the user function; load/dump/archived are the cache object\'s methods.',
+      '__wrapped__ is the user function; load/dump/archived are the cache object\'s methods; every key a call adds to memory or '
+      'archive is that same term. Plus a bounded probe on the real code (not counted as proved): every parameter name of klepto\'s own '
+      'signatures as a user parameter name, 8 callable forms, 12 decorators: key()/lookup() agree with the calls made.',
       'DESIGN.md 5 C18')
 
 for _p, _r in {
@@ -147,9 +149,10 @@ bounded('C12',
         'proof): simple/deep/shallow rounders and the key path of inf_cache/lru_cache/safe.lfu_cache/keygen against an independent '
         'oracle built on Python\'s round over nested argument structures (depth <=3, tol in {None,-1,0,1,2}): rounds like the oracle, '
         'never fails, never mutates its input, leaves non-float data intact, keys merge exactly the calls that round alike, the function '
-        'receives the original objects. The property as a whole is claimed at the weaker level.',
+        'receives the original objects; arguments that are not plain containers (namedtuple, range, deque, iterators, ...) and reserved '
+        'parameter names do not make a call fail. The property as a whole is claimed at the weaker level.',
         'DESIGN.md 5 C12',
-        'bounded scope for the rounding functions themselves (no Level-A proof of simple_round/deep_round bodies); no NaN; one-shot iterables outside the scope.',
+        'bounded scope for the rounding functions themselves (no Level-A proof of simple_round/deep_round bodies); no NaN; one-shot iterables, ranges, namedtuples etc. only as single top-level arguments.',
         TECH_B + '; wrapper clauses by pyvc + z3')
 
 bounded('C03',
